@@ -1995,6 +1995,7 @@ func (h *Hist) doROSession(op *Op) {
 	os.RemoveAll(d)
 	ro := o
 	ro.Readonly = true
+	ro.Typed = h.gen.r.Chance(0.4) // the read-only handle through the typed wrapper
 	l, err := kOpen(h.dir, ro)
 	if err != nil {
 		h.fail(failf("ro:open-error:"+errClass(err), "read-only Open failed: %s", errText(err)))
@@ -2028,6 +2029,13 @@ func (h *Hist) doROSession(op *Op) {
 		h.fail(failf("ro:publish:"+errClass(err), "Publish on a read-only handle: want ErrReadonly, got %s", errText(err)))
 		kClose(l)
 		return
+	}
+	for _, empty := range [][]klevdb.Message{nil, {}} {
+		if _, err := kPublish(l, empty); errClass(err) != "ErrReadonly" {
+			h.fail(failf("ro:publish-empty:"+errClass(err), "Publish of an empty batch on a read-only handle (typed wrapper=%v): want ErrReadonly, got %s", ro.Typed, errText(err)))
+			kClose(l)
+			return
+		}
 	}
 	if _, _, err := kDelete(l, map[int64]struct{}{0: {}}); errClass(err) != "ErrReadonly" {
 		h.fail(failf("ro:delete:"+errClass(err), "Delete on a read-only handle: want ErrReadonly, got %s", errText(err)))
